@@ -540,7 +540,7 @@ func run(c Case) kit.Result {
 var spec = kit.Spec[Case]{
 	Prop: "C34", Name: "roundtrip",
 	Rule:  "message built by <=60 (thorough <=150) API ops (AddEntry/Cancel/Remove/AddBlock/AddBlockPresence/AddHave/AddDontHave/SetPendingBytes) over 7 keys x 10 CID forms (4 forms share one multihash; identity, truncated, empty data), all int32 priorities/pending; compared with a reference model of the documented merge rules, then FromNet(ToNetV1) == model on every field and FromNet(ToNetV0) preserves wantlist + block bytes; non-trivial = at least one merged duplicate entry or a block with a non-CIDv0 prefix",
-	Quick: 4000, Thorough: 12000,
+	Quick: 10000, Thorough: 30000,
 	Gen: gen, Run: run,
 }
 
@@ -812,6 +812,31 @@ func runWire(c WireCase) kit.Result {
 	pbm.PendingBytes = c.Pending
 	model.Pending = c.Pending
 
+	// An element is malformed when its CID bytes do not parse as a CID or its prefix does
+	// not yield a CID for the data. Such a message must be rejected as a whole.
+	malformed := ""
+	if pbm.Wantlist != nil {
+		for i, e := range pbm.Wantlist.Entries {
+			if _, err := cid.Cast(e.Block); err != nil {
+				malformed = fmt.Sprintf("wantlist entry %d has invalid CID bytes %x", i, e.Block)
+			}
+		}
+	}
+	for i, b := range pbm.Payload {
+		pref, err := cid.PrefixFromBytes(b.Prefix)
+		if err == nil {
+			_, err = pref.Sum(b.Data)
+		}
+		if err != nil {
+			malformed = fmt.Sprintf("payload block %d has unusable prefix %x", i, b.Prefix)
+		}
+	}
+	for i, p := range pbm.BlockPresences {
+		if _, err := cid.Cast(p.Cid); err != nil {
+			malformed = fmt.Sprintf("block presence %d has invalid CID bytes %x", i, p.Cid)
+		}
+	}
+
 	body, err := proto.Marshal(pbm)
 	if err != nil {
 		return kit.Fail("harness: proto.Marshal: %v", err)
@@ -830,6 +855,9 @@ func runWire(c WireCase) kit.Result {
 		return kit.Fail("%v", oerr)
 	}
 	hostile := c.hostile()
+	if malformed != "" && len(c.Muts) == 0 && c.LenDelta == 0 && accepted {
+		return kit.Fail("malformed message accepted (%s): parsed into %d entries, %d blocks, %d presences", malformed, len(got.Entries), len(got.Blocks), len(got.Pres))
+	}
 	if !hostile {
 		if !accepted {
 			_, _, perr := bsmsg.FromNet(bytes.NewReader(raw))
@@ -843,6 +871,8 @@ func runWire(c WireCase) kit.Result {
 	switch {
 	case !hostile:
 		cls = append(cls, "wellformed")
+	case malformed != "" && len(c.Muts) == 0 && c.LenDelta == 0:
+		cls = append(cls, "malformed-element-rejected")
 	case accepted:
 		cls = append(cls, "hostile-accepted")
 	default:
@@ -863,8 +893,8 @@ func runWire(c WireCase) kit.Result {
 
 var wireSpec = kit.Spec[WireCase]{
 	Prop: "C34", Name: "wire",
-	Rule:  "hand-built protobuf message (<=30/50 entries with duplicate CIDs in wire order, deprecated blocks + payload, presences for block CIDs, nil wantlist), 1 in 4 with 1-4 byte mutations / wrong frame length only, 1 in 4 additionally with hostile CID/prefix bytes and unknown enum values; FromNet: error => nil message; success => every block CID recomputes from its own data, no undefined CIDs, serialise->parse fixpoint; well-formed cases additionally equal the merge-rule model applied in wire order; non-trivial = well-formed with a merged duplicate or non-CIDv0 block, or hostile-but-accepted with >=1 block",
-	Quick: 4000, Thorough: 12000,
+	Rule:  "hand-built protobuf message (<=30/50 entries with duplicate CIDs in wire order, deprecated blocks + payload, presences for block CIDs, nil wantlist), 1 in 4 with 1-4 byte mutations / wrong frame length only, 1 in 4 additionally with hostile CID/prefix bytes and unknown enum values; FromNet: error => nil message; success => every block CID recomputes from its own data, no undefined CIDs, serialise->parse fixpoint; a message with an unparsable CID / unusable prefix (and no byte mutation) must be rejected; well-formed cases additionally equal the merge-rule model applied in wire order; non-trivial = well-formed with a merged duplicate or non-CIDv0 block, or hostile-but-accepted with >=1 block",
+	Quick: 10000, Thorough: 30000,
 	Gen: genWire, Run: runWire,
 }
 
